@@ -11,7 +11,7 @@ func init() {
 	register(&property{
 		ID:          "C18",
 		Explanation: "Static decision of the wire codecs by byte-layout evaluation: for each exported wire type of the OpenVPN, WireGuard and RDP modules the parser is path-evaluated on a symbolic input of concrete length L (for L at, just inside, just outside and between the type's size bounds), every field is tracked as a byte range of the input (through fixed-width decodings with their byte order), the serialiser is evaluated on the resulting object, and its output pieces must be exactly the input bytes in order: (R1) parse-then-serialise reproduces the input for every accepted length; (R2) lengths outside the type's declared bounds (exactly the declared size for fixed-size types) are rejected on every path, lengths inside are accepted on some path, and no decoding reads past its slice; (R3) the OpenVPN header byte codec is checked exhaustively for all 256 values; (R4) for structures read with encoding/binary the declared <Type>BytesTotal constant equals the encoded size of the struct.",
-		NotDecided:  "Winbox MessageAuth (chunking depends on byte values, not only on lengths; noted: a 255-byte payload serialises to a 257-byte message its own parser rejects); serialise-then-parse for arbitrary field values that no parse produces; cryptographic transforms (FromBytesCrypt/ToBytesCrypt, HMAC).",
+		NotDecided:  "Winbox MessageAuth beyond its chunk arithmetic (R6) and the tiling of the reassembled buffer (R5): user-name syntax, RoMON suffix handling; serialise-then-parse for arbitrary field values that no parse produces; cryptographic transforms (FromBytesCrypt/ToBytesCrypt, HMAC).",
 		Run:         runC18,
 	})
 }
